@@ -675,9 +675,17 @@ func paProvisionOps(c *ctx) []string {
 	// the ticker goroutine ends when crlUpdateStop is closed
 	it := c.funcDecl(paChecker, "CRLRevocationChecker", "initCRLUpdateTicker")
 	stops := false
+	// the goroutine may wait on the field itself or on a local copy taken before it starts
+	stopNames := map[string]bool{"<-c.crlUpdateStop": true}
+	for _, s := range it.Body.List {
+		if as, ok := s.(*ast.AssignStmt); ok && as.Tok == token.DEFINE && len(as.Lhs) == 1 && len(as.Rhs) == 1 &&
+			exprStr(as.Rhs[0]) == "c.crlUpdateStop" {
+			stopNames["<-"+exprStr(as.Lhs[0])] = true
+		}
+	}
 	ast.Inspect(it.Body, func(n ast.Node) bool {
 		if cc, ok := n.(*ast.CommClause); ok && cc.Comm != nil {
-			if es, ok := cc.Comm.(*ast.ExprStmt); ok && exprStr(es.X) == "<-c.crlUpdateStop" {
+			if es, ok := cc.Comm.(*ast.ExprStmt); ok && stopNames[exprStr(es.X)] {
 				for _, b := range cc.Body {
 					if _, ok := b.(*ast.ReturnStmt); ok {
 						stops = true
